@@ -133,7 +133,9 @@ where
 
   #[inline]
   fn is_finished(&self) -> bool {
+    // the groups announced so far may still have subscribers of their own
     self.observer.is_finished()
+      && self.subjects.values().all(|subject| subject.is_finished())
   }
 }
 
